@@ -17,6 +17,7 @@ type PipeOpts struct {
 	Cost      int  // 0 all cheap, 1 all expensive, 2 one expensive stage
 	DelayUs   int  // cost of an expensive element
 	FailAt    int  // element value that fails in one stage (-1 none)
+	FailPanic bool // the failing element raises a Go panic in a host function instead of returning an error
 	ShortCirc bool // terminal from the short-circuit family only (C08)
 	MaxStages int
 }
@@ -71,7 +72,11 @@ func GenPipe(r *rand.Rand, o PipeOpts, useArg bool) *Pipe {
 			e = ref.Static("delay", e, ref.Int(int64(o.DelayUs)))
 		}
 		if stage == failStage {
-			e = ref.Static("failAt", e, ref.Int(int64(o.FailAt)))
+			if o.FailPanic {
+				e = ref.Static("panicAt", e, ref.Int(int64(o.FailAt)))
+			} else {
+				e = ref.Static("failAt", e, ref.Int(int64(o.FailAt)))
+			}
 		}
 		return e
 	}
@@ -187,8 +192,16 @@ func GenPipe(r *rand.Rand, o PipeOpts, useArg bool) *Pipe {
 	case "member":
 		cur = ref.Bin("~", K, cur)
 	case "multiUse":
+		first := ref.Method(ref.Method(id(a), "map", ref.Clo([]string{b}, TickN(300, id(b)))), "size")
+		switch r.IntN(4) {
+		case 0:
+			// the consumer hands back lazy lists inside containers: they have to be evaluated before it ends
+			first = ref.ListN(ref.Method(id(a), "map", ref.Clo([]string{b}, TickN(300, id(b)))), ref.Int(7))
+		case 1:
+			first = ref.MapN([]string{"l", "n"}, []*ref.Node{ref.ListN(ref.Method(id(a), "accept", ref.Clo([]string{b}, ref.Bin("!=", ref.Bin("%", TickN(300, id(b)), ref.Int(3)), ref.Int(0))))), ref.Int(1)})
+		}
 		cur = ref.Method(ref.Method(cur, "multiUse", ref.MapN([]string{"u", "v"}, []*ref.Node{
-			ref.Clo([]string{a}, ref.Method(ref.Method(id(a), "map", ref.Clo([]string{b}, TickN(300, id(b)))), "size")),
+			ref.Clo([]string{a}, first),
 			ref.Clo([]string{a}, ref.Method(id(a), "mapReduce", ref.Int(0), ref.Clo([]string{"tc", "td"}, ref.Bin("+", id("tc"), TickN(301, id("td")))))),
 		})), "string")
 	case "eval":
